@@ -86,4 +86,18 @@ __CPROVER_ensures((RET == CIF_OK && g_no_cr) ==> scanner->buffer_limit == UIDX(g
 __CPROVER_ensures((RET == CIF_MEMORY_ERROR && g_read_calls == OLD(g_read_calls)) ==> (scanner->buffer == OLD(scanner->buffer) && scanner->buffer_limit == OLD(scanner->buffer_limit) && scanner->next_char == OLD(scanner->next_char)
         && scanner->text_start == OLD(scanner->text_start) && scanner->tvalue_start == OLD(scanner->tvalue_start)))
 ;
+
+/* ---- get_first_char: the very first unit (and, after a CR, possibly one more) --------------------------------------------------- */
+unsigned g_fc_calls; long g_fc_n[2]; UChar g_fc_ch[2]; long g_fc_count[2];   /* ghost: what the source delivers on the first / second request */
+static int get_first_char(struct scanner_s *scanner)
+__CPROVER_requires(__CPROVER_rw_ok(scanner, sizeof(*scanner)) && scanner->buffer_size >= 2 && scanner->buffer_size <= MAXBUF && scanner->buffer_limit == 0 && OFF(scanner->buffer) == 0
+        && __CPROVER_rw_ok(scanner->buffer, scanner->buffer_size * sizeof(UChar)) && scanner->error_callback != NULL && g_fc_calls == 0 && scanner->char_class[0x0D] != NO_CLASS)
+__CPROVER_assigns(scanner->buffer_limit, scanner->at_eof, scanner->tvalue_start, __CPROVER_object_whole(scanner->buffer), g_fc_calls, g_fc_count)
+/* C08: nothing the character source delivered is dropped: the buffer holds the first unit and every unit of a second request, except
+ * that a CR LF pair counts as the single newline it denotes */
+__CPROVER_ensures((RET == CIF_OK && g_fc_calls == 1) ==> scanner->buffer_limit == 1)
+__CPROVER_ensures((RET == CIF_OK && g_fc_calls == 2 && g_fc_n[1] > 0) ==> scanner->buffer_limit == 1 + (size_t)(g_fc_n[1] < g_fc_count[1] ? g_fc_n[1] : g_fc_count[1]) - (g_fc_ch[1] == 0x0A ? 1 : 0))
+__CPROVER_ensures((RET == CIF_OK && g_fc_ch[0] == 0x0D) ==> scanner->buffer[0] == 0x0A)
+__CPROVER_ensures(RET == CIF_OK ==> scanner->buffer_limit <= scanner->buffer_size)
+;
 #endif
